@@ -10,6 +10,7 @@ MODEL = "PoolFile.tla"
 TRACE = "PoolFileTrace.tla"
 TCFG = "Trace_PoolFile.cfg"
 DEPS = [OPS]
+HANG = 3  # exit code of a driver whose watchdog fired
 
 
 class _Stop(Exception):
@@ -19,11 +20,17 @@ class _Stop(Exception):
 def _drive(ctx, binary, test, label, env=None, timeout=1800, tlc_timeout=2400):
     out = ctx.sub(label)
     rc, o = vlib.run_driver(binary, test, out, ctx.seed, env=env or {}, timeout=timeout)
-    if rc != 0:
+    # exit code 3: the driver's watchdog abandoned a step that never became
+    # quiescent and logged a "hang" event; the trace specification decides
+    # whether that hang is a wait C16 bounds (else it is infrastructure).
+    if rc not in (0, HANG):
         raise vlib.Infra("poolfile driver %s failed:\n%s" % (test, o[-3000:]))
+    before = len(ctx.violations) + len(ctx.known_hits)
     vlib.validate_traces(ctx, out + "/trace.ndjson", TRACE, TCFG, DEPS, label,
                          classify=vlib.classify_for(ctx.prop), timeout=tlc_timeout,
                          max_failures=int(os.environ.get("VERIF_C16_MAXFAIL", "8")))
+    if rc == HANG and len(ctx.violations) + len(ctx.known_hits) == before:
+        raise vlib.Infra("poolfile driver %s: a step never became quiescent and the trace does not explain it:\n%s" % (test, o[-2000:]))
     ctx.cov["samples"] += vlib.sample_lines(out + "/trace.ndjson", 3)
     if ctx.violations and os.environ.get("VERIF_C16_STOPFIRST", "") == "1":
         raise _Stop()
